@@ -1,0 +1,10 @@
+//go:build verif
+
+// Contracts for the govc verifier (/verif). Comment-only: with the "verif" tag off this file is
+// not part of any build; with it on it adds nothing but the package clause.
+package models
+
+//@ func NewPointFromBytes
+//@   assumed
+//@   modifies nothing
+//@   ensures nil_iff_err: (result1 == nil) == (result0 != nil)
